@@ -433,5 +433,6 @@ func genHKey(t *testing.T, c *vlib.Collector, id *int, r *vlib.Rand) {
 
 func genExtra(t *testing.T, c *vlib.Collector, id *int, r *vlib.Rand) {
 	genXClear(c, id, r)
+	genFence(c, id, r)
 	genHKey(t, c, id, r)
 }
